@@ -20,6 +20,11 @@ pub mod thread;
 pub use engine::{Config, Failure, Report, choose, current_schedule, explore, in_exploration, note, replay};
 pub use std::thread_local;
 
+/// Make the operations of `sync::atomic::TokenU8` scheduling points (or not).
+pub fn token_points(on: bool) {
+    sync::atomic::TOKEN_POINTS.store(on, std::sync::atomic::Ordering::SeqCst);
+}
+
 /// Compatibility shims for code written against shuttle's top-level API.
 pub fn check_dfs<F>(f: F, _max: Option<usize>)
 where
